@@ -41,6 +41,7 @@ func runC01(c *RunCtx) {
 	richPrograms(c, "rich", 48, 240, richBias{MaxJobs: 8, Cancel: 20, Purge: 15, Script: 4, Batches: 30, Waiters: 1, Expiry: 35},
 		ExploreOpts{Base: 3, K: c.Q(2, 4), Funcs: anchoredOr(c, dispatchFuncs), Pairs: c.Q(20, 120), MaxCases: c.Q(200, 4000)})
 	reaperPrograms(c, 32, 160)
+	tuneRacePrograms(c, 24, 120)
 	runC01Burst(c)
 }
 
@@ -107,7 +108,7 @@ func runC17(c *RunCtx) {
 	}
 }
 
-func runC01Burst(c *RunCtx) { burstPrograms(c, 12, 48); purgeBurstPrograms(c, 8, 32) }
+func runC01Burst(c *RunCtx) { burstPrograms(c, 48, 160); purgeBurstPrograms(c, 8, 32) }
 
 func gatePrograms(c *RunCtx, fam string, nq, nt int, b gateBias, o ExploreOpts) {
 	for v := 0; v < c.Q(nq, nt); v++ {
@@ -125,7 +126,7 @@ func gateOpts(c *RunCtx) ExploreOpts {
 func runC02(c *RunCtx) {
 	richPrograms(c, "restarts", 32, 160, richBias{MaxJobs: 8, Cancel: 0, Purge: 0, Script: 8, Batches: 0, Waiters: 0, Samplers: false, Expiry: 0, Conc: []int{1, 1, 2, 3}, RestartHeavy: true},
 		ExploreOpts{Base: 3, K: c.Q(3, 6), Funcs: anchoredOr(c, []string{"goEventLoop", "processNextJob", "Restart", "Stop", "start", "closeChannels"}), Pairs: c.Q(30, 150), MaxCases: c.Q(200, 3000)})
-	gatePrograms(c, "gate", 48, 240, gateBias{Adapters: true, MaxOps: 14, Expiry: 20, Tune: true, Life: true}, gateOpts(c))
+	gatePrograms(c, "gate", 64, 300, gateBias{Adapters: true, MaxOps: 14, Expiry: 20, Tune: true, Life: true}, gateOpts(c))
 }
 
 func runC04(c *RunCtx) {
@@ -137,4 +138,5 @@ func runC04(c *RunCtx) {
 func runC18(c *RunCtx) {
 	gatePrograms(c, "gate", 48, 240, gateBias{Adapters: false, MaxOps: 14, Expiry: 60, Tune: true, Life: true}, gateOpts(c))
 	reaperPrograms(c, 32, 160)
+	tuneRacePrograms(c, 32, 160)
 }
